@@ -215,6 +215,13 @@ namespace
 		parts.push_back(down(w));
 		parts.push_back(']');
 	      }
+	    else if (w == '^')
+	      {
+		// "[^]" is not a bracket expression matching '^'; it
+		// begins a negated one.  Escape the character instead.
+		parts.push_back('\\');
+		parts.push_back(w);
+	      }
 	    else
 	      {
 		parts.push_back('[');
